@@ -410,7 +410,12 @@ def main():
             if o["term"] == only:
                 chosen.append(o)
             continue
-        if thorough or o["model"] == "Accept" or o["intended"]:
+        # quick: every program the model accepts or the statement expects to compile, every SAME-VERSION program
+        # (a wrong kind or purpose inside one version is the misuse a signature change lets through first), and a
+        # stratified third of the cross-version ones
+        vers = [t for t in re.findall(r"[A-Za-z0-9]+", o["term"]) if t in ("V1", "V2", "V3", "V3A", "V4", "V4S")]
+        same_version = len(set(vers)) <= 1
+        if thorough or o["model"] == "Accept" or o["intended"] or same_version:
             chosen.append(o)
         else:
             strata.setdefault((o["class"], o["model"], o["misuse"]), []).append(o)
